@@ -141,7 +141,9 @@ NestDecl(W, w) ==
           \o (IF 2 * w < W THEN <<Fld("f", "nested", w, 1, << <<W - 2 * w, W - w - 1>> >>, FALSE, <<2>>, <<>>, "rw")>> ELSE <<>>)
           \o (IF w >= 2 /\ w + 1 <= W THEN <<Fld("f", "nested", w, 1, << <<W - 1, W - 1>>, <<0, w - 2>> >>, TRUE, <<>>, <<>>, "rw")>> ELSE <<>>)),
          <<>>, << [name |-> "Inner", n |-> w] >>, FALSE)
-CustBaseFor(w) == IF w <= 7 THEN {8, 20} ELSE IF w <= 16 THEN {16, 33, 64} ELSE IF w <= 33 THEN {33, 64, 128} ELSE {64, 65, 128}
+(* incl. bases exactly as wide as the field: a custom-typed field can span the whole storage *)
+CustBaseFor(w) == (IF w <= 7 THEN {8, 20} ELSE IF w <= 16 THEN {16, 33, 64} ELSE IF w <= 33 THEN {33, 64, 128} ELSE {64, 65, 128})
+                  \cup (IF w \in {8, 16, 32, 64} THEN {w} ELSE {})
 QCust == SetToSeq({CustDecl(W, w) : <<W, w>> \in {<<W, w>> \in (1..128) \X CustWidths : W \in CustBaseFor(w) /\ w <= W}})
          \o SetToSeq({NestDecl(W, w) : <<W, w>> \in {<<W, w>> \in {8, 12, 32, 64, 100, 128} \X NestedWidths : w <= W}})
 
@@ -220,6 +222,14 @@ QDbg == <<
                   N(Scalar("bool", 1, 127, "rw"), "top") >>, <<>>, <<>>),
   DbgDecl(24, << N(Scalar("inat", 16, 8, "rw"), "s16"), N(Scalar("unat", 8, 0, "rw"), "b0"),
                  N(Fld("f", "nested", 12, 1, << <<0, 11>> >>, FALSE, <<>>, <<>>, "r"), "n12") >>, <<>>, << [name |-> "Inner", n |-> 12] >>),
+  (* fields spanning the whole register whose value is NOT the raw integer: signed, Option<enum>, nested *)
+  DbgDecl(8, << N(Scalar("inat", 8, 0, "rw"), "s"), N(Fld("f", "optenum", 8, 1, << <<0, 7>> >>, FALSE, <<>>, <<>>, "rw"), "o"),
+                N(Fld("f", "nested", 8, 1, << <<0, 7>> >>, FALSE, <<>>, <<>>, "rw"), "n"), N(Scalar("unat", 8, 0, "r"), "u") >>,
+          <<EnumNonExh("O8", 8)>>, << [name |-> "Inner", n |-> 8] >>),
+  DbgDecl(64, << N(Scalar("inat", 64, 0, "rw"), "s64"), N(Fld("f", "nested", 64, 1, << <<0, 63>> >>, FALSE, <<>>, <<>>, "r"), "n64") >>,
+          <<>>, << [name |-> "Inner", n |-> 64] >>),
+  DbgDecl(16, << N(Scalar("inat", 16, 0, "rw"), "s16"), N(Fld("f", "optenum", 16, 1, << <<0, 15>> >>, FALSE, <<>>, <<>>, "rw"), "o16") >>,
+          <<EnumNonExh("O16", 16)>>, <<>>),
   DbgDecl(9, << N(Scalar("uarb", 9, 0, "rw"), "all"), N(Scalar("bool", 1, 8, "rw"), "t"),
                 N(Fld("f", "optenum", 1, 1, << <<0, 0>> >>, FALSE, <<>>, <<>>, "rw"), "o1") >>, <<EnumNonExh("O1", 1)>>, <<>>)
   >>
